@@ -31,7 +31,7 @@ def gen(seed, tier):
     if "levels" in pl and seed % 4 == 0:
         for l in pl["levels"]:
             if l["engine"] == "ea":
-                l["custom_derived"] = True
+                l["custom_derived"] = "same_name" if seed % 8 == 0 else True
         if any(l.get("custom_derived") for l in pl["levels"]):
             pl["entry"] = "tree"  # hms() has no config_class_to_deme_class parameter
     if "levels" in pl and seed % 9 == 4:
